@@ -514,16 +514,15 @@ func (p *Parser) parseComponentStmt() ast.Statement {
 		return nil
 	}
 
-	if p.peekTokenIs(token.SLOT) {
-		p.nextToken() // skip ")"
-		stmt.Slots = p.parseSlots()
-	} else if p.peekTokenIs(token.HTML) && isWhitespace(p.peekToken.Literal) {
-		p.nextToken() // skip ")"
+	// the whitespace before the first slot comes as several
+	// tokens when there is a comment inside of it
+	for p.peekTokenIs(token.HTML) && isWhitespace(p.peekToken.Literal) {
+		p.nextToken() // skip ")" or whitespace
+	}
 
-		if p.peekTokenIs(token.SLOT) {
-			p.nextToken() // skip whitespace
-			stmt.Slots = p.parseSlots()
-		}
+	if p.peekTokenIs(token.SLOT) {
+		p.nextToken() // skip ")" or whitespace
+		stmt.Slots = p.parseSlots()
 	}
 
 	p.components = append(p.components, stmt)
